@@ -32,7 +32,7 @@ HANDLER = "h-c17"
 RUN = "run-c17"
 HB_INTERVAL = 1.0
 WATCHDOG = 3000.0  # virtual seconds without completion => the stream is pending
-SERVE_WAIT = 60.0
+SERVE_WAIT = 600.0
 STALL = 20.0  # virtual seconds without new body bytes => a scripted drop fires now
 
 _mods: dict[str, Any] = {}
